@@ -320,8 +320,10 @@ def apply(m, tr, op, flags, ctx=None):
             flags.add("shift-in-place")
     elif kind == "expr":
         lhs, tree = op[1], _remap(m, op[2])
+        # optional 5th element: the augmented spelling  lhs op= rhs  (documented meaning lhs = lhs op (rhs)) when lhs exists
+        aug = op[4] if len(op) > 4 and lhs is not None and (lhs in m.feat or lhs in ("x", "y", "z")) else None
         try:
-            ref = exprs.evaluate(tree, m.env(), m.n)
+            ref = exprs.evaluate(["b", aug, ["n", lhs], tree] if aug else tree, m.env(), m.n)
         except exprs.Undef:
             return None
         if lhs in ("x", "y", "z") and not coord_valid(m.coords, lhs, ref.vec):
@@ -332,7 +334,9 @@ def apply(m, tr, op, flags, ctx=None):
         if lhs is None:
             tr.operate(s)
         else:
-            tr.operate(lhs + "=" + s)
+            tr.operate(lhs + (aug or "") + "=" + s)
+            if aug:
+                flags.add("expr-augmented")
             if lhs in ("x", "y", "z"):
                 setattr(m, lhs, list(ref.vec))
                 flags.add("coord-assign")
@@ -535,7 +539,8 @@ def strat_history(max_ops=30):
             st.tuples(st.just("op_nv"), st.sampled_from(sorted(NON_VOID)), srcs),
             st.tuples(st.just("op_su"), st.sampled_from(sorted(SHIFT_UNARY)), srcs, dsts),
             st.tuples(st.just("op_sh"), st.sampled_from(sorted(SHIFT_SCALAR)), srcs, st.integers(-6, 6), dsts),
-            st.tuples(st.just("expr"), st.sampled_from(FEATS + ["x", "y", "z"]), tree, st.booleans()),
+            st.tuples(st.just("expr"), st.sampled_from(FEATS + ["x", "y", "z"]), tree, st.booleans(),
+                      st.sampled_from([None, None, None, "+", "-", "*", "/", "^"])),
             st.tuples(st.just("expr"), st.sampled_from(FEATS), tree, st.booleans()),
             st.tuples(st.just("expr"), st.none(), tree, st.booleans()),
             st.tuples(st.just("exprx"), st.integers(0, 1), ext),
